@@ -154,7 +154,7 @@ def subst_int(node, n):
     return {k: subst_int(x, n) for k, x in node.items()}
 
 
-def expected(k, qd, v, n1, n2):
+def expected(k, qd, v, n1, n2, qlist=None):
     """(value the resolver receives, value in data, expected log)"""
     log = []
     NM = names_of(k)
@@ -175,7 +175,7 @@ def expected(k, qd, v, n1, n2):
         log.append(("arg>", NM[j], t))
     for t in reversed(TAGS["arg"][:k]):
         val = ap(val, t)
-    q = {0: [], 1: [("q1", n1)], 2: [("q1", n1), ("q2", n2)], 3: [("q2", n2), ("q1", n1)]}[qd]
+    q = {0: [], 1: [("q1", n1)], 2: [("q1", n1), ("q2", n2)], 3: [("q2", n2), ("q1", n1)]}[qd] if qlist is None else qlist
     for name, n in q:
         log.append(("field>", name, n))
     for j, t in enumerate(TAGS["f"][:k]):
@@ -244,6 +244,65 @@ def c13_chain(v: int, n1: int, n2: int, mode: int) -> bool:
     if not ok or r.get("errors"):
         return verdict(False)
     seen, val, elog = expected(k, qd, v, n1, n2)
+    observe(("expected", seen, val, elog))
+    return verdict(r["data"]["f"] == val and same_log(log, elog))
+
+
+# ---- the same response key selected several times (directly, through an inline fragment, through a named fragment): the field executes
+# once and EVERY occurrence's query-side directives govern that execution
+F_ = "f(i: {x: 1000001})"
+MERGED = [
+    ("query Q($n1: Int!, $n2: Int!) { %s @q1(n: $n1) ... on Query { %s @q2(n: $n2) } }" % (F_, F_), [["q1"], ["q2"]]),
+    ("query Q($n1: Int!) { %s ...F } fragment F on Query { %s @q1(n: $n1) }" % (F_, F_), [[], ["q1"]]),
+    ("query Q($n1: Int!, $n2: Int!) { ...F %s @q2(n: $n2) } fragment F on Query { %s @q1(n: $n1) }" % (F_, F_), [["q1"], ["q2"]]),
+    ("query Q($n1: Int!, $n2: Int!) { %s %s @q1(n: $n1) @q2(n: $n2) }" % (F_, F_), [[], ["q1", "q2"]]),
+    ("query Q($n1: Int!, $n2: Int!) { %s @q2(n: $n2) ... on Query { ... on Query { %s @q1(n: $n1) } } %s }" % (F_, F_, F_), [["q2"], ["q1"], []]),
+]
+MASTS = [gqlfront.parse(t) for t, _ in MERGED]
+
+
+@obligation(tier="quick", timeout=200, shards=[{"k": k, "doc": d} for k in (0, 1, 2, 3, 5) for d in range(len(MERGED))],
+            quick_shards=[i for i, (k, d) in enumerate((k, d) for k in (0, 1, 2, 3, 5) for d in range(len(MERGED))) if k in (0, 2)],
+            samples=[{"v": 1, "n1": 7, "n2": 9}, {"v": -3, "n1": 0, "n2": 0}],
+            symbolic=["v: int (unbounded)", "n1, n2: int — arguments of the query-side directives (variables)"],
+            selectors=["shard: schema-side directives per element, document (5 ways of selecting the same field more than once, directives on the first / a later / a fragment's occurrence)"],
+            bounds="5 documents x 5 schemas",
+            note="a field selected several times under one response key executes once; the query-side directives of EVERY occurrence wrap that execution exactly once each, "
+                 "outside the schema-side ones, declaration order kept within an occurrence (the relative order of different occurrences is free)")
+def c13_merged(v: int, n1: int, n2: int) -> bool:
+    """
+    post: _
+    """
+    sh = shard()
+    k, d = sh["k"], sh["doc"]
+    if not (-2 ** 31 <= n1 < 2 ** 31 and -2 ** 31 <= n2 < 2 ** 31):
+        return True
+    text, occ = MERGED[d]
+    ast = subst_int(MASTS[d], v)
+    variables = {"n1": n1}
+    if "$n2" in text:
+        variables["n2"] = n2
+    del LOG[:]
+    old = env.FFI._parse_to_json_ast
+    env.FFI._parse_to_json_ast = lambda q: ast
+    try:
+        ok, r = safe(lambda: env.run(ENGS[k].execute(text, variables=variables)))
+    finally:
+        env.FFI._parse_to_json_ast = old
+    log = list(LOG)
+    observe(r, log)
+    if not ok or r.get("errors"):
+        return verdict(False)
+    got_q = [e[1] for e in log if e[0] == "field>" and e[1] in ("q1", "q2")]
+    want = [n for o in occ for n in o]
+    if sorted(got_q) != sorted(want):
+        return verdict(False)          # an occurrence's directive did not run, or ran more than once
+    for o in occ:
+        idx = [got_q.index(n) for n in o]
+        if idx != sorted(idx):
+            return verdict(False)      # declaration order within one occurrence
+    vals = {"q1": n1, "q2": n2}
+    seen, val, elog = expected(k, 0, v, n1, n2, qlist=[(n, vals[n]) for n in got_q])
     observe(("expected", seen, val, elog))
     return verdict(r["data"]["f"] == val and same_log(log, elog))
 
